@@ -28,6 +28,10 @@ CONSTANTS P0,         \* initial balance of each party in L (= funding)
           CD,         \* challenge duration in ticks
           Adversary,  \* TRUE: Adv registers outdated states, Hon only watches
           Hon,        \* the honest party in adversary mode
+          Ballast,    \* TRUE: L carries a second sub-channel from the start (opened first, 1 + 1 locked, never used, never
+                      \*   closed): S is then the SECOND locked sub-allocation of L, every registration of L carries two
+                      \*   sub-channel states and L can never be final.  Its funds come on top of P0 and flow back to their
+                      \*   owners when L is concluded, so no amount below changes.
           Deposit
 
 P == {"A", "B"}
@@ -125,7 +129,7 @@ SettleS ==
 
 (* final update of L (only without locked funds: a final state with locked funds cannot be concluded directly) *)
 FinalizeP(p, amt) ==
-  /\ CanP /\ Locked(NP) = 0 /\ amt \in 0..1 /\ PBal(p, NP) >= amt
+  /\ CanP /\ ~Ballast /\ Locked(NP) = 0 /\ amt \in 0..1 /\ PBal(p, NP) >= amt
   /\ ph' = Append(ph, Move(ph[NP + 1], p, amt)) /\ pfin' = TRUE
   /\ UNCHANGED <<sh, sub, hold, tmo, reg, regAt, concl, paid, acct, now, nreg>>
 
